@@ -65,9 +65,12 @@ def gen(ch):
     # argument patterns: one small int (the cache's fast path), or pairs whose key tuples collide in hash
     # (hash(-1) == hash(-2), hash(0.5) == hash(2**60)) and therefore have to be told apart by equality
     sc.args = ([(0,), (1,), (2,), (3,)], [(-1, 0), (-2, 0), (0.5, 0), (2 ** 60, 0)],
-               [(1,), (1, ("mode", 2)), (2,), (3,)])[ch.weighted([3, 1, 1])]
+               [(1,), (1, ("mode", 2)), (2,), (3,)], [(), (), (7,), (8,)])[ch.weighted([3, 1, 1, 1])]
     # with the third set, pattern 0 is called as f(1, mode=2): a keyword item next to a positional tuple that looks like it
     sc.kwargs = [{"mode": 2}, None, None, None] if sc.args[1] == (1, ("mode", 2)) else [None] * 4
+    if sc.args[0] == ():
+        # the fourth set: one argument only, given by keyword under two names and positionally - three patterns, one value
+        sc.kwargs = [{"base": 7}, {"scale": 7}, None, None]
     return sc
 
 
@@ -138,11 +141,13 @@ def execute(st, ctx):
                 if any(in_flight.values()):
                     out.probes["clear_in_flight"] = 1
                 cached.cache_clear()
+                marks["removals"] = marks.get("removals", 0) + 1
                 marks["last_clear_tick"] = tick()
             elif kind == 2:
                 if any(in_flight.values()):
                     out.probes["discard_in_flight"] = 1
                 cached.cache_discard(*sc.args[key], **(sc.kwargs[key] or {}))
+                marks["removals"] = marks.get("removals", 0) + 1
                 marks.setdefault("discards", {})[key] = tick()
             else:
                 cached.cache_info()
@@ -153,11 +158,17 @@ def execute(st, ctx):
     if sc.cancel is not None:
         sim.cancel_plan[tasks[sc.cancel].id] = 1 + st.faults.draw(6)
     over = []
+    lost = []
     msize = sc.maxsize
+    seen = {"size": 0, "removals": 0}
 
     def hook(sim_):
+        cur = cached.cache_info().currsize
+        # calls only ever add entries (evicting at most what a new entry needs): the cache shrinks by clear / discard alone
+        if cur < seen["size"] and marks.get("removals", 0) == seen["removals"] and not lost:
+            lost.append((sim_.seq, seen["size"], cur))
+        seen["size"], seen["removals"] = cur, marks.get("removals", 0)
         if msize is not None:
-            cur = cached.cache_info().currsize
             if cur > msize and not over:
                 over.append((sim_.seq, cur))
             if cur == msize and sum(in_flight.values()) >= 1 and msize:
@@ -181,6 +192,9 @@ def execute(st, ctx):
     elif not sim.capped:
         if over:
             out.violate("C11.currsize_exceeds_maxsize", sig, dict(describe(), at=over[0]))
+        if lost:
+            out.violate("C11.entry_lost_without_clear_or_discard", sig,
+                        dict(describe(), at_step=lost[0][0], currsize_before=lost[0][1], currsize_after=lost[0][2]))
         for t in tasks:
             if t.error is not None and t.error is not t.cancelled_with:
                 out.violate("C11.task_failed", sig + (type(t.error).__name__,), dict(describe(), error=repr(t.error)))
